@@ -1,7 +1,376 @@
-// correspondence + search binary for property C04 (stub)
+// C04 — the real `Showdown::from(ledger).settle()` vs the Lean model `RP.Showdown.settle`
+// (correspondence stream) and vs an independent layered-pot oracle (search oracle).
+//
+// The oracle is written from the property statement / poker side-pot rules, not from the
+// engine's loop: sort the distinct commitment levels, cut the pot into layers, find each
+// layer's eligible seats and winners, and check
+//   * conservation, folded => 0, rewards >= 0,
+//   * reward > 0 => winner of some layer,
+//   * sum of floor shares <= reward <= sum of ceil shares over the layers the seat wins,
+//   * cap: reward <= sum_q min(risked_q, risked_p),
+//   * exact: maximal runs of adjacent layers with the same winner set are paid floor(chips/n)
+//     each plus chips mod n single chips to the first winners in seat order.
+use robopoker::cards::kicks::Kickers;
+use robopoker::cards::rank::Rank;
+use robopoker::cards::ranking::Ranking;
+use robopoker::cards::strength::Strength;
+use robopoker::gameplay::seat::State;
+use robopoker::gameplay::settlement::Settlement;
+use robopoker::gameplay::showdown::Showdown;
+use rpharness::*;
+
+#[derive(Clone, Copy, PartialEq, Eq, Hash, Debug)]
+struct Seat {
+    risked: i16,
+    status: u8, // 0 betting, 1 shoving, 2 folding
+    strength: u8,
+}
+
+/// strength values order-isomorphic to 0..N (checked at start-up)
+fn strength_table() -> Vec<Strength> {
+    let k = |m: u16| Kickers::from(m);
+    vec![
+        Strength::from((Ranking::HighCard(Rank::Seven), k(0b0000_0000_1111))),
+        Strength::from((Ranking::HighCard(Rank::Ace), k(0b0000_0000_1111))),
+        Strength::from((Ranking::HighCard(Rank::Ace), k(0b0100_0000_0111))),
+        Strength::from((Ranking::OnePair(Rank::Two), k(0b1_1100_0000_0000))),
+        Strength::from((Ranking::OnePair(Rank::Ace), k(0))),
+        Strength::from((Ranking::TwoPair(Rank::Three, Rank::Two), k(1 << 12))),
+        Strength::from((Ranking::TwoPair(Rank::Ace, Rank::King), k(1))),
+        Strength::from((Ranking::ThreeOAK(Rank::Nine), k(0b11))),
+        Strength::from((Ranking::Straight(Rank::Five), k(0))),
+        Strength::from((Ranking::Straight(Rank::Ace), k(0))),
+        Strength::from((Ranking::FullHouse(Rank::Two, Rank::Ace), k(0))),
+        Strength::from((Ranking::FourOAK(Rank::Two), k(1 << 12))),
+        Strength::from((Ranking::StraightFlush(Rank::Ace), k(0))),
+    ]
+}
+
+fn status_of(s: u8) -> State {
+    match s {
+        0 => State::Betting,
+        1 => State::Shoving,
+        _ => State::Folding,
+    }
+}
+fn status_char(s: u8) -> char {
+    match s {
+        0 => 'b',
+        1 => 's',
+        _ => 'f',
+    }
+}
+
+fn op_of(l: &[Seat]) -> String {
+    let mut s = format!("settle {}", l.len());
+    for p in l {
+        s.push_str(&format!(" {} {} {}", p.risked, status_char(p.status), p.strength));
+    }
+    s
+}
+
+/// the real code
+fn real(tab: &[Strength], l: &[Seat]) -> Option<Vec<i16>> {
+    let ledger: Vec<Settlement> = l.iter().map(|p| Settlement::from((p.risked, status_of(p.status), tab[p.strength as usize]))).collect();
+    catch(move || Showdown::from(ledger).settle().iter().map(|s| s.reward).collect::<Vec<i16>>())
+}
+
+/// hypotheses of the property: a contesting seat exists; with M = the largest contesting
+/// commitment, every contesting seat that is not all-in has committed M, no folded seat has
+/// committed more than M; commitments are non-negative and fit the chip type together
+fn valid(l: &[Seat]) -> bool {
+    let live: Vec<&Seat> = l.iter().filter(|p| p.status != 2).collect();
+    if live.is_empty() {
+        return false;
+    }
+    let m = live.iter().map(|p| p.risked).max().unwrap();
+    l.iter().all(|p| p.risked >= 0)
+        && l.iter().map(|p| p.risked as i64).sum::<i64>() <= i16::MAX as i64
+        && l.iter().all(|p| match p.status {
+            0 => p.risked == m,
+            1 => p.risked <= m,
+            _ => p.risked <= m,
+        })
+}
+
+struct Layer {
+    pot: i64,
+    winners: Vec<usize>,
+}
+
+/// independent layered-pot decomposition (i64 arithmetic)
+fn layers(l: &[Seat]) -> Vec<Layer> {
+    let mut levels: Vec<i64> = l.iter().map(|p| p.risked as i64).filter(|&r| r > 0).collect();
+    levels.sort();
+    levels.dedup();
+    let mut out = vec![];
+    let mut lo = 0i64;
+    for &hi in &levels {
+        let payers = l.iter().filter(|p| p.risked as i64 >= hi).count() as i64;
+        let eligible: Vec<usize> = (0..l.len()).filter(|&i| l[i].status != 2 && l[i].risked as i64 >= hi).collect();
+        let top = eligible.iter().map(|&i| l[i].strength).max();
+        let winners = eligible.into_iter().filter(|&i| Some(l[i].strength) == top).collect();
+        out.push(Layer { pot: (hi - lo) * payers, winners });
+        lo = hi;
+    }
+    out
+}
+
+/// the oracle; returns (class, expected, got) of every deviation
+fn oracle(l: &[Seat], got: &[i16]) -> Vec<(&'static str, String, String)> {
+    let mut bad = vec![];
+    let n = l.len();
+    let g: Vec<i64> = got.iter().map(|&x| x as i64).collect();
+    if g.len() != n {
+        bad.push(("ledger-length-changed", format!("{n} seats"), format!("{} seats", g.len())));
+        return bad;
+    }
+    let staked: i64 = l.iter().map(|p| p.risked as i64).sum();
+    let paid: i64 = g.iter().sum();
+    if staked != paid {
+        bad.push(("chips-not-conserved", format!("sum of rewards {staked}"), format!("{paid}")));
+    }
+    let ls = layers(l);
+    let mut lower = vec![0i64; n];
+    let mut upper = vec![0i64; n];
+    let mut wins = vec![false; n];
+    for layer in &ls {
+        let k = layer.winners.len() as i64;
+        for &w in &layer.winners {
+            wins[w] = true;
+            lower[w] += layer.pot / k;
+            upper[w] += (layer.pot + k - 1) / k;
+        }
+    }
+    // exact: merge maximal runs of adjacent layers with the same winner set
+    let mut exact = vec![0i64; n];
+    let mut i = 0;
+    while i < ls.len() {
+        let mut chips = ls[i].pot;
+        let mut j = i + 1;
+        while j < ls.len() && ls[j].winners == ls[i].winners {
+            chips += ls[j].pot;
+            j += 1;
+        }
+        let k = ls[i].winners.len() as i64;
+        if k > 0 {
+            for (pos, &w) in ls[i].winners.iter().enumerate() {
+                exact[w] += chips / k + if (pos as i64) < chips % k { 1 } else { 0 };
+            }
+        }
+        i = j;
+    }
+    for p in 0..n {
+        if g[p] < 0 {
+            bad.push(("negative-reward", format!("seat {p}: >= 0"), format!("{}", g[p])));
+        }
+        if l[p].status == 2 && g[p] != 0 {
+            bad.push(("folded-seat-paid", format!("seat {p}: 0"), format!("{}", g[p])));
+        }
+        if g[p] > 0 && !wins[p] {
+            bad.push(("paid-without-winning-a-layer", format!("seat {p}: 0"), format!("{}", g[p])));
+        }
+        if g[p] < lower[p] || g[p] > upper[p] {
+            bad.push(("share-outside-floor-ceil", format!("seat {p}: {}..={}", lower[p], upper[p]), format!("{}", g[p])));
+        }
+        let cap: i64 = l.iter().map(|q| (q.risked.min(l[p].risked)) as i64).sum();
+        if g[p] > cap {
+            bad.push(("paid-above-cap", format!("seat {p}: <= {cap}"), format!("{}", g[p])));
+        }
+    }
+    if g != exact {
+        bad.push(("merged-layer-payout-differs", format!("{exact:?}"), format!("{g:?}")));
+    }
+    bad
+}
+
+struct Ctx {
+    tab: Vec<Strength>,
+    run: Run,
+}
+
+impl Ctx {
+    /// one ledger: correspondence line always; oracle only under the property's hypotheses
+    fn case(&mut self, l: &[Seat], tag: &str) {
+        let op = op_of(l);
+        let ok = valid(l);
+        self.run.evaluations += 1;
+        let res = real(&self.tab, l);
+        match &res {
+            None => self.run.line(&op, "panic"),
+            Some(r) => {
+                let mut s = String::from("rewards");
+                for x in r {
+                    s.push_str(&format!(" {x}"));
+                }
+                self.run.line(&op, &s)
+            }
+        }
+        if !ok {
+            self.run.count(&format!("{tag}/outside-hypotheses"));
+            return;
+        }
+        self.run.count(&format!("{tag}/players={}", l.len()));
+        self.run.spec_checked += 1;
+        match res {
+            None => self.run.fail("settle-panics", &op, "a payout", "panic"),
+            Some(r) => {
+                for (class, want, got) in oracle(l, &r) {
+                    self.run.fail(class, &op, &want, &format!("{got} (rewards {r:?})"));
+                }
+                // non-trivial: at least two layers or a tie with an odd chip
+                let ls = layers(l);
+                let odd = ls.iter().any(|y| y.winners.len() > 1 && y.pot % y.winners.len() as i64 != 0);
+                if ls.len() >= 2 || odd {
+                    self.run.distinct(&l.to_vec());
+                }
+                if odd {
+                    self.run.count("feature/odd-chip");
+                }
+                if ls.len() >= 3 {
+                    self.run.count("feature/three-or-more-layers");
+                }
+                if l.iter().any(|p| p.status == 2 && p.risked > 0) {
+                    self.run.count("feature/folded-money");
+                }
+            }
+        }
+    }
+}
+
+fn enumerate(ctx: &mut Ctx, n: usize, maxc: i16, levels: u8, invalid_every: u64) {
+    let per = (maxc as u64 + 1) * 3 * levels as u64;
+    let total = per.pow(n as u32);
+    let mut skipped = 0u64;
+    for code in 0..total {
+        let mut c = code;
+        let mut l = Vec::with_capacity(n);
+        for _ in 0..n {
+            let d = c % per;
+            c /= per;
+            let risked = (d % (maxc as u64 + 1)) as i16;
+            let d = d / (maxc as u64 + 1);
+            l.push(Seat { risked, status: (d % 3) as u8, strength: (d / 3) as u8 });
+        }
+        if !valid(&l) {
+            // outside the hypotheses: correspondence only, thinned
+            skipped += 1;
+            if skipped % invalid_every != 0 {
+                continue;
+            }
+        }
+        ctx.case(&l, "exhaustive");
+    }
+}
+
+fn random_ledger(rng: &mut Rng, want_valid: bool) -> Vec<Seat> {
+    let n = rng.range(2, 9) as usize;
+    let levels = rng.range(1, 6) as u8;
+    // small commitments force ties, odd chips and coinciding all-in levels; large ones the range
+    let maxc: i64 = match rng.below(4) {
+        0 => 3,
+        1 => 9,
+        2 => 100,
+        _ => 3600,
+    };
+    let mut l: Vec<Seat> = (0..n)
+        .map(|_| Seat {
+            risked: rng.range(0, maxc) as i16,
+            status: match rng.below(10) {
+                0..=2 => 0,
+                3..=6 => 1,
+                _ => 2,
+            },
+            strength: rng.below(levels as u64) as u8,
+        })
+        .collect();
+    if want_valid {
+        if l.iter().all(|p| p.status == 2) {
+            let i = rng.below(n as u64) as usize;
+            l[i].status = rng.below(2) as u8;
+        }
+        // a few all-in seats share a level
+        if rng.chance(1, 3) {
+            let i = rng.below(n as u64) as usize;
+            let j = rng.below(n as u64) as usize;
+            l[j].risked = l[i].risked;
+        }
+        let m = l.iter().filter(|p| p.status != 2).map(|p| p.risked).max().unwrap();
+        for p in l.iter_mut() {
+            if p.status == 0 {
+                p.risked = m;
+            } else if p.status == 2 {
+                p.risked = p.risked.min(m);
+            }
+        }
+    } else if rng.chance(1, 8) {
+        let i = rng.below(n as u64) as usize;
+        l[i].risked = -l[i].risked.min(50);
+    }
+    l
+}
+
 fn main() {
-    let a = rpharness::args();
-    let mut run = rpharness::Run::new(&a.out);
-    run.rule = "stub".into();
-    run.finish();
+    let a = args();
+    let mut rng = Rng::new(a.seed);
+    quiet_panics();
+    let tab = strength_table();
+    let sentinel = Strength::from((Ranking::MAX, Kickers::default()));
+    for w in tab.windows(2) {
+        assert!(w[0] < w[1], "strength table not strictly increasing");
+    }
+    assert!(tab.iter().all(|s| *s < sentinel), "sentinel not above the table");
+    // the oracle must reject wrong payouts of a ledger with an odd chip, three layers and folded money
+    {
+        let l = [
+            Seat { risked: 3, status: 1, strength: 9 },
+            Seat { risked: 4, status: 0, strength: 3 },
+            Seat { risked: 4, status: 0, strength: 3 },
+            Seat { risked: 2, status: 2, strength: 10 },
+            Seat { risked: 1, status: 1, strength: 9 },
+        ];
+        assert!(valid(&l));
+        let classes = |g: &[i16]| oracle(&l, g).into_iter().map(|x| x.0).collect::<Vec<_>>();
+        assert!(classes(&[10, 1, 1, 0, 2]).is_empty(), "oracle rejects the textbook payout");
+        assert!(classes(&[11, 1, 1, 0, 2]).contains(&"chips-not-conserved"));
+        assert!(classes(&[9, 1, 1, 1, 2]).contains(&"folded-seat-paid"));
+        assert!(classes(&[9, 1, 1, 1, 2]).contains(&"paid-without-winning-a-layer"));
+        assert!(classes(&[10, 2, 0, 0, 2]).contains(&"share-outside-floor-ceil"));
+        assert_eq!(classes(&[9, 1, 1, 0, 3]), vec!["merged-layer-payout-differs"]);
+        assert!(classes(&[0, 1, 1, 0, 12]).contains(&"paid-above-cap"));
+    }
+    let mut ctx = Ctx { tab, run: Run::new(&a.out) };
+    ctx.run.notes.push("oracle self-test: 6 wrong payouts of a 5-seat ledger rejected with the expected classes, the textbook payout accepted".into());
+    let nrandom: u64 = if a.thorough() { 4_000_000 } else { 200_000 };
+    ctx.run.exhaustive = true;
+    ctx.run.rule = format!(
+        "exhaustive: every ledger of 1..=4 seats x commitments 0..=4 x {{betting, all-in, folded}} x 3 strength levels that satisfies the property's hypotheses (a contesting seat exists, contesting non-all-in seats hold the largest contesting commitment M, folded seats <= M){}; plus {nrandom} random ledgers of 2..=9 seats, commitments up to 3/9/100/3600, 1..=6 strength levels, valid by construction; ledgers outside the hypotheses (every {}th of the enumeration, 1/8 of the random ones, some with negative commitments) go to the model-correspondence stream only; non-trivial = at least two pot layers or a tie with an odd chip; distinct by the whole ledger",
+        if a.thorough() { "; and of 5 seats x commitments 0..=3 x 2 strength levels" } else { "" },
+        if a.thorough() { 3 } else { 7 },
+    );
+    let every = if a.thorough() { 3 } else { 7 };
+    for n in 1..=4 {
+        enumerate(&mut ctx, n, 4, 3, every);
+    }
+    if a.thorough() {
+        enumerate(&mut ctx, 5, 3, 2, 5);
+    }
+    for _ in 0..nrandom {
+        let l = random_ledger(&mut rng, true);
+        ctx.case(&l, "random");
+    }
+    for _ in 0..nrandom / 8 {
+        let l = random_ledger(&mut rng, false);
+        ctx.case(&l, "random");
+    }
+    // the nine pinned example ledgers' shape is covered above; add the extremes of the chip type
+    let big = [
+        vec![Seat { risked: 16383, status: 0, strength: 3 }, Seat { risked: 16383, status: 0, strength: 3 }, Seat { risked: 1, status: 2, strength: 9 }],
+        vec![Seat { risked: 10922, status: 1, strength: 5 }, Seat { risked: 10922, status: 1, strength: 5 }, Seat { risked: 10922, status: 1, strength: 5 }],
+        vec![Seat { risked: 32767, status: 0, strength: 0 }, Seat { risked: 0, status: 2, strength: 1 }],
+    ];
+    for l in &big {
+        ctx.case(l, "extreme");
+    }
+    ctx.run.finish();
 }
